@@ -324,7 +324,11 @@ func (c16) Gen(seed uint64, run int, tier string) *Plan {
 			// adds a listener of another kind under the same name
 			ni := r.Intn(3)
 			emit(Action{Kind: "par", A: 2})
-			emit(Action{Kind: "ladd", A: 0, B: ni, C: 0, L: []int{0, r.Intn(3), r.Intn(3), r.Intn(3), 0}})
+			first := Action{Kind: "ladd", A: 0, B: ni, C: 0, L: []int{0, r.Intn(3), r.Intn(3), r.Intn(3), 0}}
+			if r.Intn(2) == 0 {
+				first.T = "rm" // ... and is removed again right away, before its start has failed
+			}
+			emit(first)
 			emit(Action{Kind: "ladd", A: 1, B: ni, C: 1 + r.Intn(2), D: 0})
 			if kind[c16Names[ni]] == 0 {
 				kind[c16Names[ni]] = 2
